@@ -110,6 +110,7 @@ type Session struct {
 	Steps []*Step
 	// what the generator knows
 	Handles []uint64
+	Origin  map[uint64][2]interface{} // handle -> (parent handle, name) it was obtained with
 	Tags    map[string]int
 }
 
@@ -159,6 +160,12 @@ func (s *Session) Do(advNs int64, c nfsx.Cred, r *nfsx.Req) *Step {
 	}
 	if o.FH != nil {
 		add(*o.FH)
+		if r.Name != nil && r.Proc != "MNT" {
+			if s.Origin == nil {
+				s.Origin = map[uint64][2]interface{}{}
+			}
+			s.Origin[*o.FH] = [2]interface{}{r.H, append([]byte{}, r.Name...)}
+		}
 	}
 	for _, e := range o.Entries {
 		if e.FH != nil {
